@@ -353,7 +353,7 @@ fn log_part(rep: &Reporter, scratch: &str) {
     }
     rep.count("systematic_rule_sets", cases.len() as u64);
     // random: 0..4 rules, all placements, 0..12 iterations
-    for _ in 0..rep.tier.pick(1_500, 40_000) {
+    for _ in 0..rep.tier.pick(5_000, 40_000) {
         let nr = rng.usize(5);
         let mut ix = 0;
         let rules: Vec<(Trig, Ext)> = (0..nr)
@@ -574,7 +574,7 @@ fn ron_of(cfg: &Configuration<P>, scratch: &str, tag: u64) -> Result<String, Str
 
 fn config_part(rep: &Reporter, scratch: &str) {
     let mut rng = SplitMix64::new(rep.seed).fork(0xC15_2);
-    let n_trees = rep.tier.pick(120, 2500);
+    let n_trees = rep.tier.pick(400, 2500);
     for t in 0..n_trees {
         let mut budget = 2 + rng.usize(10);
         let tree = random_n(&mut rng, 0, &mut budget);
